@@ -148,6 +148,7 @@ def setup(c):
         "mu.regions is modelled as derived from the ordered index (a VerID determines the key range); checked by every dump",
         "PD answers come from mocktikv.Cluster (live or a replayed prefix); BatchScanRegions is answered by the harness from Cluster.ScanRegions per range "
         "because the mock's own BatchScanRegions skips a later unbounded range and miscounts the limit",
+        "topology ops follow mocktikv.Cluster as of /repo bd025bf (split: both halves parent epoch with version+1; merge: max(source,target)+1); modelled in Driver/C09.lean only, checked by every topology line",
         "every region has a leader (regions without leader are filtered by design: not covered); TTL expiry by wall clock is represented by invalidation",
         "no-op backoffer: a PD retry round is reported as err",
         "defaultRegionsPerBatch (128) is never reached by the generated topologies: the multi-batch loops are modelled and proved about but not exercised",
